@@ -1,7 +1,10 @@
 package main
 
 import (
+	"fmt"
 	"go/token"
+	"go/types"
+	"strings"
 
 	"golang.org/x/tools/go/ssa"
 )
@@ -168,4 +171,451 @@ func rangeInduction(idx ssa.Value) ssa.Value {
 		}
 	}
 	return nil
+}
+
+// ---------------- C08.R3: sibling-indexed slices ----------------
+//
+// A site x[i] where i is the index of a `range y` loop over a different slice y is in range only if len(x) >= len(y).
+// Accepted proofs:
+//   S1  x was made with make(T, len(y)) (or make(T, len(y)+c))
+//   S2  a dominating edge establishes len(x) == len(y) or len(x) >= len(y) (any spelling, either operand order)
+//   S3  x and y are loads through the same pointer (range *a ... (*a)[i])
+//   S4  x and y are parameters: the obligation moves to every call site, where the arguments must satisfy S1/S2 (a nil
+//       argument for x is accepted when the callee tests x != nil before the site); a length-preserving call
+//       (c08LenPreserving) on the y argument is looked through.
+//   S5  a dominating edge establishes i < len(x)
+
+// c08LenPreserving: functions returning a slice with the length of the given parameter (confirmed by reading).
+var c08LenPreserving = map[string]int{
+	"pkg/pdfcpu.normalizeStreamFilterArray": 2,
+}
+
+func lenArgOf(v ssa.Value) ssa.Value {
+	call, ok := v.(*ssa.Call)
+	if !ok {
+		return nil
+	}
+	if bi, ok := call.Call.Value.(*ssa.Builtin); ok && bi.Name() == "len" {
+		return call.Call.Args[0]
+	}
+	return nil
+}
+
+func sameSlice(a, b ssa.Value) bool {
+	if a == b || sameValue(a, b) {
+		return true
+	}
+	la, ok1 := a.(*ssa.UnOp)
+	lb, ok2 := b.(*ssa.UnOp)
+	if ok1 && ok2 && la.Op == token.MUL && lb.Op == token.MUL && la.X == lb.X {
+		// two loads through the same pointer value; no store of a new slice header through it in the function
+		clobber := false
+		eachInstr(la.Parent(), func(_ *ssa.BasicBlock, _ int, i ssa.Instruction) {
+			if st, ok := i.(*ssa.Store); ok && st.Addr == la.X {
+				clobber = true
+			}
+		})
+		return !clobber
+	}
+	// comma-ok / type assertion aliases of the same extracted value
+	return false
+}
+
+// lenRelationAt: does a dominating edge (w.r.t. block blk) establish len(x) >= len(y)?
+func lenRelationAt(fn *ssa.Function, blk *ssa.BasicBlock, x, y ssa.Value) bool {
+	found := false
+	eachInstr(fn, func(_ *ssa.BasicBlock, _ int, i ssa.Instruction) {
+		b, ok := i.(*ssa.BinOp)
+		if !ok || found {
+			return
+		}
+		switch b.Op {
+		case token.EQL, token.NEQ, token.LSS, token.LEQ, token.GTR, token.GEQ:
+		default:
+			return
+		}
+		lx, ly := lenArgOf(b.X), lenArgOf(b.Y)
+		if lx == nil || ly == nil {
+			return
+		}
+		var op token.Token
+		switch {
+		case sameSlice(lx, x) && sameSlice(ly, y):
+			op = b.Op // len(x) OP len(y)
+		case sameSlice(lx, y) && sameSlice(ly, x):
+			op = mirrorOp(b.Op) // len(y) OP len(x)  ==  len(x) mirror(OP) len(y)
+		default:
+			return
+		}
+		for _, want := range []bool{true, false} {
+			o := op
+			if !want {
+				o = negateOp(o)
+			}
+			if o != token.EQL && o != token.GEQ && o != token.GTR {
+				continue
+			}
+			for _, e := range condEdges(b, want) {
+				if edgeDominates(e, blk) {
+					found = true
+				}
+			}
+		}
+	})
+	return found
+}
+
+func madeWithLenOf(x, y ssa.Value) bool {
+	if ct, ok := x.(*ssa.ChangeType); ok {
+		x = ct.X
+	}
+	mk, ok := x.(*ssa.MakeSlice)
+	if !ok {
+		return false
+	}
+	l := mk.Len
+	if add, ok := l.(*ssa.BinOp); ok && add.Op == token.ADD {
+		if _, isC := add.Y.(*ssa.Const); isC {
+			l = add.X
+		}
+	}
+	if a := lenArgOf(l); a != nil && sameSlice(a, y) {
+		return true
+	}
+	return false
+}
+
+func idxBoundAt(fn *ssa.Function, blk *ssa.BasicBlock, x, idx ssa.Value) bool {
+	found := false
+	eachInstr(fn, func(_ *ssa.BasicBlock, _ int, i ssa.Instruction) {
+		b, ok := i.(*ssa.BinOp)
+		if !ok || found {
+			return
+		}
+		var op token.Token
+		switch {
+		case b.X == idx && lenArgOf(b.Y) != nil && sameSlice(lenArgOf(b.Y), x):
+			op = b.Op
+		case b.Y == idx && lenArgOf(b.X) != nil && sameSlice(lenArgOf(b.X), x):
+			op = mirrorOp(b.Op)
+		default:
+			return
+		}
+		for _, want := range []bool{true, false} {
+			o := op
+			if !want {
+				o = negateOp(o)
+			}
+			if o != token.LSS {
+				continue
+			}
+			for _, e := range condEdges(b, want) {
+				if edgeDominates(e, blk) {
+					found = true
+				}
+			}
+		}
+	})
+	return found
+}
+
+// nonNilSources: the values v can take, looking through phis, skipping nil constants.
+func nonNilSources(v ssa.Value) []ssa.Value {
+	seen := map[ssa.Value]bool{}
+	var out []ssa.Value
+	var walk func(x ssa.Value)
+	walk = func(x ssa.Value) {
+		if seen[x] {
+			return
+		}
+		seen[x] = true
+		switch y := x.(type) {
+		case *ssa.Phi:
+			for _, e := range y.Edges {
+				walk(e)
+			}
+		case *ssa.Const:
+			if !y.IsNil() {
+				out = append(out, x)
+			}
+		default:
+			out = append(out, x)
+		}
+	}
+	walk(v)
+	return out
+}
+
+// checkLenPreserving: every return of a function listed in c08LenPreserving is the parameter itself or its Clone().
+func checkLenPreserving(c *Ctx) {
+	p, r := c.P, c.R
+	for ref, k := range c08LenPreserving {
+		var fn *ssa.Function
+		for _, f := range p.Funcs {
+			if o := f.Object(); o != nil && objRef(o) == ref {
+				fn = f
+			}
+		}
+		if fn == nil || k >= len(fn.Params) {
+			r.Bad("C08.R3", ref, "length-preserving", "", "function or parameter not found")
+			continue
+		}
+		prm := fn.Params[k]
+		var isParamOrClone func(v ssa.Value, d int) bool
+		isParamOrClone = func(v ssa.Value, d int) bool {
+			if d > 6 {
+				return false
+			}
+			switch x := v.(type) {
+			case *ssa.Parameter:
+				return x == prm
+			case *ssa.TypeAssert:
+				return isParamOrClone(x.X, d+1)
+			case *ssa.ChangeType:
+				return isParamOrClone(x.X, d+1)
+			case *ssa.MakeInterface:
+				return isParamOrClone(x.X, d+1)
+			case *ssa.Phi:
+				for _, e := range x.Edges {
+					if !isParamOrClone(e, d+1) {
+						return false
+					}
+				}
+				return true
+			case *ssa.Call:
+				if f := staticCallee(x); f != nil && f.Name() == "Clone" && len(x.Call.Args) == 1 {
+					return isParamOrClone(x.Call.Args[0], d+1)
+				}
+			}
+			return false
+		}
+		ok := true
+		for _, ret := range returnsOf(fn) {
+			if len(ret.Results) != 1 || !isParamOrClone(ret.Results[0], 0) {
+				ok = false
+			}
+		}
+		pos := p.Fset.Position(fn.Pos()).String()
+		if ok {
+			r.OK("C08.R3", ref, "length-preserving", pos, "every return is the "+prm.Name()+" parameter or its Clone()", true)
+		} else {
+			r.Bad("C08.R3", ref, "length-preserving", pos, "relied on as returning a slice of the same length as "+prm.Name()+", but a return is neither the parameter nor its Clone()")
+		}
+	}
+}
+
+func runC08R3(c *Ctx) {
+	p, r := c.P, c.R
+	cg := c.CG()
+	checkLenPreserving(c)
+	for _, fn := range p.Funcs {
+		fid := FuncID(fn)
+		if !strings.HasPrefix(fid, "pkg/") && !strings.HasPrefix(fid, "internal/") {
+			continue
+		}
+		fn := fn
+		eachInstr(fn, func(_ *ssa.BasicBlock, _ int, i ssa.Instruction) {
+			var x, idx ssa.Value
+			switch v := i.(type) {
+			case *ssa.IndexAddr:
+				x, idx = v.X, v.Index
+			case *ssa.Index:
+				x, idx = v.X, v.Index
+			default:
+				return
+			}
+			if _, isSlice := x.Type().Underlying().(*types.Slice); !isSlice {
+				return
+			}
+			y := rangeInduction(idx)
+			if y == nil || sameSlice(x, y) || valueKey(x) == valueKey(y) {
+				return
+			}
+			// scope: one of the two has a length controlled by the document
+			if typeNameOf(x.Type()) != "Array" && typeNameOf(y.Type()) != "Array" {
+				return
+			}
+			pos := p.Fset.Position(i.Pos()).String()
+			construct := fmt.Sprintf("%s[range index of %s]", exprName(x), exprName(y))
+			blk := i.Block()
+			switch {
+			case madeWithLenOf(x, y):
+				r.OK("C08.R3", fid, construct, pos, "S1: indexed slice was made with the length of the ranged slice", true)
+				return
+			case lenRelationAt(fn, blk, x, y):
+				r.OK("C08.R3", fid, construct, pos, "S2: a dominating comparison establishes len(indexed) >= len(ranged)", true)
+				return
+			case idxBoundAt(fn, blk, x, idx):
+				r.OK("C08.R3", fid, construct, pos, "S5: a dominating comparison bounds the index by len(indexed)", true)
+				return
+			}
+			// S4: both parameters -> call sites
+			px, okx := x.(*ssa.Parameter)
+			py, oky := y.(*ssa.Parameter)
+			if okx && oky {
+				xi, yi := paramIndex(fn, px), paramIndex(fn, py)
+				var bad []string
+				n := 0
+				for _, caller := range cg.In[fn] {
+					caller := caller
+					eachInstr(caller, func(_ *ssa.BasicBlock, _ int, ci ssa.Instruction) {
+						call, ok := ci.(ssa.CallInstruction)
+						if !ok {
+							return
+						}
+						if f := staticCallee(call); f == nil || unwrapSynthetic(f) != fn {
+							return
+						}
+						n++
+						if !callSiteLenRelation(caller, call, xi, yi) {
+							bad = append(bad, p.Fset.Position(call.Pos()).String())
+						}
+					})
+				}
+				if n == 0 {
+					r.Bad("C08.R3", fid, construct, pos, "index by the position in another slice; both are parameters and no static call site was found to carry the length obligation")
+					return
+				}
+				if len(bad) == 0 {
+					r.OK("C08.R3", fid, construct, pos, fmt.Sprintf("S4: on every path to each call site (%d) the argument for %s is nil or a comparison established len(%s) >= len(%s)", n, px.Name(), px.Name(), py.Name()), true)
+				} else {
+					r.Bad("C08.R3", fid, construct, pos, fmt.Sprintf("%s is indexed by the position in %s, but the call site(s) %s can be reached with a non-nil %s without a comparison establishing len(%s) >= len(%s): a shorter %s panics with index out of range", px.Name(), py.Name(), strings.Join(dedupStrings(bad), ", "), px.Name(), px.Name(), py.Name(), px.Name()))
+				}
+				return
+			}
+			if t, ok := c08IndexTriage[fid]; ok {
+				r.OK("C08.R3", fid, construct, pos, "triaged: "+t, false)
+				return
+			}
+			r.Bad("C08.R3", fid, construct, pos, "slice indexed by the position in a different slice without an established length relation")
+		})
+	}
+}
+
+// c08IndexTriage: sibling index sites whose length relation is established where the checker cannot follow it.
+var c08IndexTriage = map[string]string{
+	"pkg/pdfcpu/validate.validateMeasureDisplayUnits": "the only caller obtains the array through validateNameArrayEntry with the validator len(a) == 3, the size of the indexed table",
+}
+
+// callSiteLenRelation: on every path to the call, the argument for the indexed parameter is nil (phi edge carrying nil, or the
+// failed branch of the comma-ok type assertion that produced it) or a comparison established len(arg x) >= len(arg y).
+func callSiteLenRelation(caller *ssa.Function, call ssa.CallInstruction, xi, yi int) bool {
+	args := call.Common().Args
+	ax, ay := args[xi], args[yi]
+	if cc, ok := ay.(*ssa.Call); ok {
+		if _, ref := callRef(cc); ref != "" {
+			if k, ok := c08LenPreserving[ref]; ok && len(cc.Call.Args) > k {
+				ay = cc.Call.Args[k]
+			}
+		}
+	}
+	srcs := nonNilSources(ax)
+	if len(srcs) == 0 {
+		return true // always nil
+	}
+	if len(srcs) > 1 {
+		return false
+	}
+	src := srcs[0]
+	if madeWithLenOf(src, ay) {
+		return true
+	}
+	genE := map[Edge][]string{}
+	add := func(e Edge) { genE[e] = append(genE[e], "F") }
+	// len relation edges
+	eachInstr(caller, func(_ *ssa.BasicBlock, _ int, i ssa.Instruction) {
+		b, ok := i.(*ssa.BinOp)
+		if !ok {
+			return
+		}
+		lx, ly := lenArgOf(b.X), lenArgOf(b.Y)
+		if lx == nil || ly == nil {
+			return
+		}
+		var op token.Token
+		switch {
+		case sameSlice(lx, src) && sameSlice(ly, ay):
+			op = b.Op
+		case sameSlice(lx, ay) && sameSlice(ly, src):
+			op = mirrorOp(b.Op)
+		default:
+			return
+		}
+		for _, want := range []bool{true, false} {
+			o := op
+			if !want {
+				o = negateOp(o)
+			}
+			if o == token.EQL || o == token.GEQ || o == token.GTR {
+				for _, e := range condEdges(b, want) {
+					add(e)
+				}
+			}
+		}
+	})
+	// failed comma-ok assertion: zero value
+	if ex, ok := src.(*ssa.Extract); ok && ex.Index == 0 {
+		if ta, ok := ex.Tuple.(*ssa.TypeAssert); ok && ta.CommaOk {
+			for _, rf := range *ta.Referrers() {
+				if okv, ok := rf.(*ssa.Extract); ok && okv.Index == 1 {
+					for _, al := range wideAliases(okv) {
+						for _, e := range condEdges(al, false) {
+							add(e)
+						}
+					}
+				}
+			}
+		}
+	}
+	// phi edges carrying nil
+	seen := map[ssa.Value]bool{}
+	var walk func(v ssa.Value)
+	walk = func(v ssa.Value) {
+		phi, ok := v.(*ssa.Phi)
+		if !ok || seen[v] {
+			return
+		}
+		seen[v] = true
+		for k, e := range phi.Edges {
+			if c, ok := e.(*ssa.Const); ok && c.IsNil() {
+				pred := phi.Block().Preds[k]
+				for si, sblk := range pred.Succs {
+					if sblk == phi.Block() {
+						add(Edge{pred, si})
+					}
+				}
+				continue
+			}
+			walk(e)
+		}
+	}
+	walk(ax)
+	ff := NewFactFlow(caller, nil, genE, nil, nil)
+	return ff.Holds(call, "F")
+}
+
+func paramIndex(fn *ssa.Function, p *ssa.Parameter) int {
+	for i, q := range fn.Params {
+		if q == p {
+			return i
+		}
+	}
+	return -1
+}
+
+func exprName(v ssa.Value) string {
+	if s := accessPath(v); s != "" {
+		return s
+	}
+	return v.Name()
+}
+
+func init() {
+	extraDebug["c08r3"] = func(p *Program) {
+		c := &Ctx{P: p, R: NewReport("C08", "debug")}
+		runC08R3(c)
+		for _, o := range c.R.Obls {
+			fmt.Printf("%s %s %s\n    %s\n", o.Verdict, o.Key, o.Pos, o.Witness)
+		}
+	}
 }
